@@ -63,6 +63,7 @@ func (p *Prog) Linear(e ast.Expr, termKey func(ast.Expr) string) *LinForm {
 		termKey = p.Canon
 	}
 	var walk func(e ast.Expr, coeff *big.Int)
+	depth := 0
 	add := func(k string, c *big.Int, e ast.Expr) {
 		if l.Terms[k] == nil {
 			l.Terms[k] = new(big.Int)
@@ -113,6 +114,20 @@ func (p *Prog) Linear(e ast.Expr, termKey func(ast.Expr) string) *LinForm {
 				walk(x.Args[0], coeff)
 				return
 			}
+		case *ast.Ident:
+			// a local defined once stands for its defining expression (named intermediates)
+			if v, ok := p.ObjOf(x).(*types.Var); ok && !v.IsField() && v.Pkg() != nil && v.Parent() != v.Pkg().Scope() && depth < 6 {
+				if fn := p.enclosingFunc(x.Pos()); fn != nil && fn.Root().Body != nil && v.Pos() >= fn.Root().Body.Pos() {
+					if d, okD := p.SingleDef(fn, v); okD && d.Rhs != nil && d.Index == 0 {
+						if _, isCall := unparen(d.Rhs).(*ast.CallExpr); !isCall || isConversion(p, d.Rhs) {
+							depth++
+							walk(d.Rhs, coeff)
+							depth--
+							return
+						}
+					}
+				}
+			}
 		}
 		add(termKey(e), coeff, e)
 	}
@@ -148,4 +163,13 @@ func bitSize(t types.Type) int {
 		return 64
 	}
 	return 0
+}
+
+func isConversion(p *Prog, e ast.Expr) bool {
+	c, ok := unparen(e).(*ast.CallExpr)
+	if !ok {
+		return false
+	}
+	tv, ok := p.Info.Types[c.Fun]
+	return ok && tv.IsType()
 }
